@@ -30,6 +30,8 @@ def dispatch (op : String) : Option (P Verdict) :=
   | "det" => some Drv.Det.runDet
   | "clones" => some Drv.Det.runClones
   | "hist" => some Drv.Det.runHist
+  | "shist" => some Drv.Det.runSetterHist
+  | "shistok" => some Drv.Det.runSetterHistOk
   | "thr" => some Drv.Eng.runThr
   | "ht" => some Drv.Eng.runHt
   | "vol" => some Drv.Eng.runVol
